@@ -20,9 +20,9 @@
 
     Missing for the full statement: nothing on the proof side — the code does not have the
     property; the gap is exactly the duplicate-bookkeeper class. *)
-From Coq Require Import List Bool NArith ZArith.
+From Coq Require Import List Bool NArith ZArith Sorting.Permutation.
 Import ListNotations.
-From Ont Require Import Gen.CrossHeader Model.CrossHeader Proofs.C33.
+From Ont Require Import Gen.CrossHeader Gen.CrossHeaderShape Model.CrossHeader Proofs.C33.
 Local Open Scope N_scope.
 
 (** Full statement: for every stored state, every header (any bookkeeper list, duplicates
@@ -152,6 +152,73 @@ Theorem c33_sync_error_keeps_state :
 Proof. exact sync_block_header_error_keeps_state. Qed.
 Print Assumptions c33_sync_error_keeps_state.
 
+(** WHICH peer set: the rule "the set announced at the greatest stored key height below the
+    header's height", stated over the stored key heights as a multiset ([max_below]: its value is
+    characterised by [c33_max_below_spec] and does not depend on the order of the list,
+    [c33_max_below_order_independent]). *)
+Theorem c33_max_below_spec : forall l h v,
+  max_below l h = Some v -> In v l /\ v < h /\ forall u, In u l -> u < h -> u <= v.
+Proof. exact max_below_some. Qed.
+Print Assumptions c33_max_below_spec.
+
+Theorem c33_max_below_none : forall l h, max_below l h = None -> forall u, In u l -> h <= u.
+Proof. exact max_below_none. Qed.
+Print Assumptions c33_max_below_none.
+
+Theorem c33_max_below_order_independent : forall l l' h,
+  Permutation l l' -> max_below l h = max_below l' h.
+Proof. exact max_below_perm. Qed.
+Print Assumptions c33_max_below_order_independent.
+
+(** Key heights inserted in ANY order: the list the code keeps (append, stable sort big -> small
+    on every write) makes findKeyHeight's "first entry below h" the greatest inserted height
+    below h. *)
+Theorem c33_insertion_order_independent : forall (inserted : list N) (h : N),
+  find (fun v => v <? h) (kh_sort inserted) = max_below inserted h.
+Proof. exact insertion_order_independent. Qed.
+Print Assumptions c33_insertion_order_independent.
+
+(** One putConsensusPeers (shape of the code read from the AST, Gen/CrossHeaderShape.v): the
+    chain's stored list gains exactly the new height and is written big -> small; other chains
+    are untouched. *)
+Theorem c33_put_records_height : forall st chain height ids,
+  Permutation (get_key_heights (put_consensus_peers st chain height ids) chain)
+              (height :: get_key_heights st chain) /\
+  desc (get_key_heights (put_consensus_peers st chain height ids) chain) /\
+  (forall c2, c2 <> chain ->
+     get_key_heights (put_consensus_peers st chain height ids) c2 = get_key_heights st c2).
+Proof.
+  intros. rewrite put_key_heights_same. split; [apply kh_store_add_perm|].
+  split; [apply kh_store_add_desc|]. intros. apply put_key_heights_other. assumption.
+Qed.
+Print Assumptions c33_put_records_height.
+
+(** In every contract state reachable from empty storage through SyncGenesisHeader and
+    SyncBlockHeader calls (any headers, any order of heights), findKeyHeight returns the rule's
+    key height, whatever order the key headers arrived in. *)
+Theorem c33_key_height_rule : forall c, reachable c -> forall h chain,
+  find_key_height (c_store c) h chain = max_below (get_key_heights (c_store c) chain) h.
+Proof. exact reachable_find_key_height. Qed.
+Print Assumptions c33_key_height_rule.
+
+(** ... so, outside the finding class, an accepted header carries two thirds of the peer set
+    announced at the greatest stored key height below its height. *)
+Theorem c33_governing_set_partial : forall c, reachable c -> forall h,
+  in_finding_class h = false ->
+  verify_header (c_store c) h = ROk ->
+  exists kh pm,
+    max_below (get_key_heights (c_store c) (h_chain h)) (h_height h) = Some kh /\
+    get_consensus_peers (c_store c) (h_chain h) kh = Some pm /\ NoDup pm /\
+    (2 * Z.of_nat (length pm)
+     <= 3 * Z.of_nat (length (filter (has_valid_sig (h_msg h) (h_sigs h)) pm)))%Z.
+Proof.
+  intros c R h Hc E. destruct (c33_partial (c_store c) h Hc E) as [pm [Hp [Hn Ht]]].
+  unfold peer_set_for in Hp. rewrite (c33_key_height_rule c R) in Hp.
+  destruct (max_below (get_key_heights (c_store c) (h_chain h)) (h_height h)) as [kh|]; [|discriminate].
+  exists kh, pm. repeat split; assumption.
+Qed.
+Print Assumptions c33_governing_set_partial.
+
 (** The model's "index out of range" value is never produced. *)
 Theorem c33_no_panic : forall st h, verify_header st h <> RErr EPanic.
 Proof. exact verify_header_no_panic. Qed.
@@ -181,3 +248,22 @@ Example c33_nonvacuous :
   verify_header st (mkHeader 1 5 7 [3; 1; 2] [SigOf 1 7; SigOf 2 7; SigOf 4 7] PNone) = RErr EMultiFailed /\
   verify_header st (mkHeader 1 5 7 [3; 1] [SigOf 1 7; SigOf 3 7] PNone) = RErr ETooFew.
 Proof. vm_compute. repeat split; reflexivity. Qed.
+
+(** Non-vacuity of the epoch rule: key headers 200 then 100 delivered out of order after genesis 0
+    (peer sets P0 = 1..4, P200 = 5..8 announced at 200, P100 = 1,2,5,6 announced at 100): the
+    stored list is [200; 100; 0], a header at 250 is governed by P200, one at 150 by P100. *)
+Example c33_epochs_nonvacuous :
+  let g := mkHeader 1 0 1 [] [] (PPeers [1; 2; 3; 4]) in
+  let k200 := mkHeader 1 200 2 [1; 2; 3] [SigOf 1 2; SigOf 2 2; SigOf 3 2] (PPeers [5; 6; 7; 8]) in
+  let k100 := mkHeader 1 100 3 [2; 3; 4] [SigOf 2 3; SigOf 3 3; SigOf 4 3] (PPeers [1; 2; 5; 6]) in
+  let c1 := snd (sync_genesis (mkC (mkStore [] []) []) g) in
+  let c2 := snd (sync_block_header c1 [k200]) in
+  let c3 := snd (sync_block_header c2 [k100]) in
+  reachable c3 /\
+  get_key_heights (c_store c3) 1 = [200; 100; 0] /\
+  verify_header (c_store c3) (mkHeader 1 250 4 [5; 6; 7] [SigOf 5 4; SigOf 6 4; SigOf 7 4] PNone) = ROk /\
+  verify_header (c_store c3) (mkHeader 1 250 4 [1; 2; 5] [SigOf 1 4; SigOf 2 4; SigOf 5 4] PNone) = RErr ENotPeer /\
+  verify_header (c_store c3) (mkHeader 1 150 5 [1; 2; 5] [SigOf 1 5; SigOf 2 5; SigOf 5 5] PNone) = ROk.
+Proof.
+  cbv zeta. split; [repeat constructor|]. vm_compute. repeat split; reflexivity.
+Qed.
